@@ -375,6 +375,9 @@ pub fn compile(path: &Path, src: &str) -> Result<Compilation, CompilationError> 
             "Main package missing main function".to_string(),
         ));
     }
+    if let Some(message) = super::separate::entry_point_signature_error(&core) {
+        return Err(compile_error(message));
+    }
     let (mono, monoenv) = mono::mono(genv.clone(), core.clone());
     let (lifted_core, liftenv) = lift::lambda_lift(monoenv.clone(), &gensym, mono.clone());
     let (anf, anfenv) = anf::anf_file(liftenv.clone(), &gensym, lifted_core.clone());
